@@ -5,6 +5,8 @@ import (
 	"strings"
 )
 
+func init() { register(genCrc) }
+
 func genCrc() {
 	var b strings.Builder
 	b.WriteString(header)
